@@ -274,18 +274,26 @@ func (s *spanScreen) setSize(w, h int) {
 
 	s.lines = newLines
 
-	s.bottomMargin = h - (s.size.Y - s.bottomMargin)
+	s.bottomMargin = clamp(h-(s.size.Y-s.bottomMargin), 0, h-1)
+	s.topMargin = clamp(s.topMargin, 0, s.bottomMargin)
 
 	s.size = Pos{X: w, Y: h}
 
 	// Resize buffers
 	s.renderBuffer = make([]rune, w)
 
-	if s.cursorPos.X > w {
+	// Bring cursor and saved cursor back inside the screen.
+	if s.cursorPos.X >= w {
 		s.cursorPos.X = 0
 	}
-	if s.cursorPos.Y > h {
+	if s.cursorPos.Y >= h {
 		s.cursorPos.Y = 0
+	}
+	if s.savedCursorPos.X >= w {
+		s.savedCursorPos.X = 0
+	}
+	if s.savedCursorPos.Y >= h {
+		s.savedCursorPos.Y = 0
 	}
 
 	s.setStyle(s.style)
